@@ -234,10 +234,22 @@ def _work(spec):
     O = observables(uniform)
     m = len(spec["edges"])
     base_spec = F.relabel(spec, edge_ids=list(range(m)))
-    base = evaluate(F.build(base_spec), O)
+    Hb = F.build(base_spec)
+    base = evaluate(Hb, O)
     evals = 0
     viols = []
     nontrivial = 0
+    # the same object, evaluated again after an in-place detour (first node and first edge removed and re-inserted:
+    # a change of insertion order only): every observable must be unchanged
+    F.detour(Hb)
+    again = evaluate(Hb, O)
+    evals += len(O)
+    for name in O:
+        b, g = base[name], again[name]
+        if b[0] != g[0] or (b[0] == "ok" and not same(b[1], g[1])):
+            viols.append((name, "second evaluation after in-place detour", base_spec,
+                          f"{name}: {str(g)[:200]} on the same object after removing and re-adding its first node and edge, "
+                          f"{str(b)[:200]} before"))
     for desc, nm, eids, vs in variants(spec):
         em = dict(zip(range(m), eids))
         got = evaluate(F.build(vs), O)
